@@ -184,7 +184,7 @@ def _run_cases(cmd_fn, sources, timeout):
     return res
 
 
-def run_batch(side, sources, path="t.sd", fuel=2000000, timeout=300):
+def run_batch(side, sources, path="t.sd", fuel=2000000, timeout=120):
     if not sources:
         return []
     if side == "impl":
